@@ -323,7 +323,13 @@ def run(ctx):
     vreqs = reqs[:len(cases)]
     aobs, _m, _q, aerrs = rc.run_ren(probe_asan, None, vreqs[::3] if ctx.quick else vreqs)
     for e, part in aerrs or []:
-        res.violation({'what': 'sanitized build of ren.c/dir.c/uc.c reports an error or crashes: ' + e[-1200:], 'input': part[:40]})
+        for r1 in part:                     # narrow down to one request
+            _o1, _a, _b, e1 = rc.run_ren(probe_asan, None, [r1], chunks=1)
+            if e1:
+                res.violation({'what': 'sanitized build of ren.c/dir.c/uc.c reports an error or crashes: ' + e1[0][0][-1500:], 'input': [r1]})
+                break
+        else:
+            res.violation({'what': 'sanitized build of ren.c/dir.c/uc.c reports an error or crashes: ' + e[-1200:], 'input': part[:40]})
     for r, a, b in zip(vreqs[::3] if ctx.quick else vreqs, obs[::3] if ctx.quick else obs, aobs):
         if a is not None and b is not None and a != b:
             res.violation({'what': 'plain and sanitized builds answer differently (undefined behaviour)', 'input': [r], 'plain': a[:800], 'asan': b[:800]})
